@@ -34,7 +34,10 @@ def _allocs(atoms, fn=None):
 
 def _true(e, kw):
     v = Q.kwarg(e.call, kw)
-    return isinstance(v, ast.Constant) and v.value is True
+    if isinstance(v, ast.Constant):
+        return v.value is True
+    # a parameter the (only analysed) caller binds to True
+    return v is not None and direct(e.arg(kw=kw)) == {'const:True'}
 
 
 # --------------------------------------------------------------------------
@@ -385,8 +388,32 @@ def cache_replay(ctx, check_order=False):
                 if has(e.recv(), "['find_cache']")]
         apps = F.effects(fn_, lambda e: e.name == 'append', depth=2)
 
+        comps = [(n, g) for g in F.reach(fn_, 2)
+                 if g.module is fn_.module for n in ast.walk(g.node)
+                 if isinstance(n, ast.ListComp)]
+
+        def comp_filled_under(alloc, member):
+            """[p for p, m in <walk> if m == FindResult.<member>]"""
+            for n, g in comps:
+                if F.flow._alloc(n, g) not in alloc:
+                    continue
+                if not has_call(F.atoms(n.elt, g), '_find_files'):
+                    continue
+                for gen in n.generators:
+                    for t in gen.ifs:
+                        if isinstance(t, ast.Compare) and len(
+                                t.ops) == 1 and isinstance(
+                                    t.ops[0], ast.Eq) and (
+                                has(F.atoms(t.left, g), 'FindResult',
+                                    member) or
+                                has(F.atoms(t.comparators[0], g),
+                                    'FindResult', member)):
+                            return True
+            return False
+
         def filled_under(alloc, member):
-            return any(alloc & _allocs(e.recv()) and has_call(
+            return comp_filled_under(alloc, member) or any(
+                alloc & _allocs(e.recv()) and has_call(
                 e.arg(0), '_find_files') and any(
                     op == 'Eq' and (has(l, 'FindResult', member) or
                                     has(r_, 'FindResult', member))
@@ -574,9 +601,12 @@ def result_lattice(ctx):
     ret = F.returns(fff)
 
     def eq_member(e, member):
+        # the test may guard the registration itself or the call of the
+        # helper that performs it
         return any(op == 'Eq' and (has(l, 'FindResult', member) or
                                    has(r_, 'FindResult', member))
-                   for op, l, r_ in F.guard_compares(e.call, e.fn, e.bind))
+                   for f_, n_ in e.path
+                   for op, l, r_ in F.guard_compares(n_, f_))
     ok = bool(walk_found) and all(eq_member(e, 'include')
                                   for e in walk_found) and \
         bool(walk_extra) and all(eq_member(e, 'not_now') and
